@@ -3,6 +3,7 @@ C03 / C05 — geometry of paragraph fragments in the pagination model: every kep
 unless it is the first line placed on an empty page; lines are stacked by the line height.
 -/
 import WpModel.Lemmas.ParaGeo
+import WpModel.Lemmas.Geometry
 
 namespace Wp.C03Geo
 open Wp Wp.PM
@@ -47,5 +48,211 @@ theorem lines_stack (c : Ctx) (st : PStyle) (b : BoxSt) (n : Nat) (lineH : Rat) 
   unfold lineboxLoop
   exact lineLoop_stack c st b n lineH pie bs (skipLine skip) (lineStart adj posY) _ _ _ _ hdeco
     (fun _ => rfl) (by grind) (by simp)
+
+
+/-! ### whole layouts and pages
+
+`placedLines f pie box` lists every line of every paragraph fragment inside the fragment tree `f` of the
+source box `box` (line heights are read in the source), `exempt` marking the first line of a paragraph laid
+out with `page_is_empty` — which stays true only along first-placed children. `DecoOk box`: in every box
+bottom padding + border ≥ 0 and, with `box-decoration-break: clone`, bottom padding + border + margin ≥ 0. -/
+
+/-- **Line fits, whole layout** (C03): in every fragment tree returned by `block_level_layout`, every line of
+every paragraph fragment ends above `pageBottom − bottomSpace` — through nested blocks, cloned decorations,
+the relayout with a larger bottom space and `find_earlier_page_break` — unless it is the first line of the
+first content placed while the page was empty. -/
+theorem layout_line_fits (box : PBox) (hd : DecoOk box) (c : Ctx) (idx : Nat) (y bs : Rat)
+    (skip : Option Resume) (cb pie : Bool) (adjL : List Rat) (f : Frag)
+    (hf : (layoutBox c box idx y bs skip cb pie adjL).frag = some f) :
+    ∀ l ∈ placedLines f pie box, l.exempt = true ∨ c.overflowsPage bs (l.y + l.lineH) = false :=
+  box_fits box hd c idx y bs skip cb pie adjL f hf
+
+/-- With no bottom space reserved (the root box): no line crosses the page bottom itself. -/
+theorem page_line_fits (box : PBox) (hd : DecoOk box) (c : Ctx) (idx : Nat) (y : Rat)
+    (skip : Option Resume) (cb pie : Bool) (adjL : List Rat) (f : Frag)
+    (hf : (layoutBox c box idx y 0 skip cb pie adjL).frag = some f) :
+    ∀ l ∈ placedLines f pie box, l.exempt = true ∨ l.y + l.lineH ≤ c.pageBottom * (1 + 1 / 1000000000) := by
+  intro l hl
+  rcases box_fits box hd c idx y 0 skip cb pie adjL f hf l hl with h | h
+  · left; exact h
+  · right
+    simp only [Ctx.overflowsPage, overflows, PlacedLine.bottom] at h
+    grind
+
+/-- Only the very first placed line can be exempt, and only when the layout started on an empty page. -/
+theorem only_first_line_exempt (f : Frag) (pie : Bool) (box : PBox) :
+    (∀ l ∈ (placedLines f pie box).tail, l.exempt = false) ∧
+    (pie = false → ∀ l ∈ placedLines f pie box, l.exempt = false) :=
+  placedLines_exempt f pie box
+
+/-- On a page that already has content, no line of the layout overflows. -/
+theorem layout_line_fits_nonempty_page (box : PBox) (hd : DecoOk box) (c : Ctx) (idx : Nat) (y bs : Rat)
+    (skip : Option Resume) (cb : Bool) (adjL : List Rat) (f : Frag)
+    (hf : (layoutBox c box idx y bs skip cb false adjL).frag = some f) :
+    ∀ l ∈ placedLines f false box, c.overflowsPage bs (l.y + l.lineH) = false := by
+  intro l hl
+  rcases box_fits box hd c idx y bs skip cb false adjL f hf l hl with h | h
+  · rw [(placedLines_exempt f false box).2 rfl l hl] at h; cases h
+  · exact h
+
+/-- **Line fits, pages** (C03): on every page made by `remake_page`, every line ends above the bottom of the
+page area (`pageH`, with the layout's fudge factor `1 + 10⁻⁹`), except possibly the very first line of the
+page. (`pageSource d p` = the root box, or its childless copy on a blank page.) -/
+theorem remakePage_line_fits (d : Doc) (hd : DecoOk d.root) (index : Nat) (resume : Option Resume)
+    (np : NextPage) (right : Bool) (p : Page) (hp : remakePage d index resume np right = some p) :
+    ∀ l ∈ (placedLines p.root true (pageSource d p)).tail, l.y + l.lineH ≤ d.pageH * (1 + 1 / 1000000000) := by
+  obtain ⟨c, hc, hf, _⟩ := remakePage_root d index resume np right p hp
+  intro l hl
+  have hne := (placedLines_exempt p.root true (pageSource d p)).1 l hl
+  rcases page_line_fits (pageSource d p) (decoOk_pageSource d p hd) c 0 0 resume false true [] p.root hf l
+    (List.mem_of_mem_tail hl) with h | h
+  · rw [hne] at h; cases h
+  · rw [← hc]; exact h
+
+/-- The same for every page of a paginated document. -/
+theorem paginate_line_fits (d : Doc) (hd : DecoOk d.root) (fuel : Nat) (pages : List Page)
+    (h : paginate d fuel = some pages) :
+    ∀ p ∈ pages, ∀ l ∈ (placedLines p.root true (pageSource d p)).tail,
+      l.y + l.lineH ≤ d.pageH * (1 + 1 / 1000000000) := by
+  have key : ∀ (fuel index : Nat) (resume : Option Resume) (np : NextPage) (right : Bool) (pages : List Page),
+      makeAllPages d fuel index resume np right = some pages →
+      ∀ p ∈ pages, ∀ l ∈ (placedLines p.root true (pageSource d p)).tail,
+        l.y + l.lineH ≤ d.pageH * (1 + 1 / 1000000000) := by
+    intro fuel
+    induction fuel with
+    | zero => intro index resume np right pages h; simp [makeAllPages] at h
+    | succ fuel ih =>
+      intro index resume np right pages h
+      simp only [makeAllPages] at h
+      split at h
+      · cases h
+      · rename_i p hp
+        have hpage := remakePage_line_fits d hd index resume np right p hp
+        split at h
+        · simp only [Option.some.injEq] at h
+          subst h
+          intro q hq
+          simp only [List.mem_singleton] at hq
+          subst hq
+          exact hpage
+        · split at h
+          · rename_i ps hps
+            simp only [Option.some.injEq] at h
+            subst h
+            intro q hq
+            rcases List.mem_cons.mp hq with rfl | hq
+            · exact hpage
+            · exact ih _ _ _ _ ps hps q hq
+          · cases h
+  exact key fuel 0 none _ _ pages h
+
+
+/-! ### the height of a fragmented box
+
+`tailY b cwc adjL` = used `position_y` (moved by the collapsed margins when the box collapses with its
+children), `tailH0 …` = the height before stretching: the fixed `height`, or for `auto`
+`position_y(after the margins following the last child) − content_box_y`. -/
+
+/-- **Fragment height** (C03): a fragmented box whose decorations are not cloned loses its bottom margin,
+padding and border and gets the height `max(own height, pageBottom − bottomSpace − content_box_y)`: it is
+stretched exactly to the bottom of the area it may use, and extends beyond only if its own content
+(an accepted overflowing first line, a fixed height) does. -/
+theorem fragment_height (c : Ctx) (st : PStyle) (b : BoxSt) (bs : Rat)
+    (cwc : Bool) (r : Resume) (posY : Rat) (adjL cur : List Rat) (curIsL hasKids : Bool)
+    (hc : st.clone = false) :
+    let g := (finishTail c st b bs cwc false (some r) posY adjL cur curIsL hasKids).geo
+    g.mb = 0 ∧ g.pb = 0 ∧ g.bb = 0 ∧
+    g.h = max (tailH0 st b cwc posY adjL cur hasKids) (c.pageBottom - bs - g.contentBoxY) ∧
+    g.contentBoxY + g.h = max (g.contentBoxY + tailH0 st b cwc posY adjL cur hasKids) (c.pageBottom - bs) := by
+  have h1 := finishTail_fragmented_plain c st b bs cwc r posY adjL cur curIsL hasKids hc
+  have h2 := finishTail_geo_frame c st b bs cwc false (some r) posY adjL cur curIsL hasKids
+  dsimp only at h1 h2 ⊢
+  obtain ⟨ha, hb, hcc, hd⟩ := h1
+  obtain ⟨hy, hmt, hbt, hpt⟩ := h2
+  refine ⟨ha, hb, hcc, ?_, ?_⟩
+  · rw [hd]; simp only [Geo.contentBoxY, hy, hmt, hbt, hpt]
+  · rw [hd]; simp only [Geo.contentBoxY, hy, hmt, hbt, hpt]; grind
+
+/-- **Fragment height with cloned decorations** (`draw_bottom_decoration`): margins, padding and border are
+kept; `bs` already contains `pb + bb + mb` (added by `prepare`). If the own height plus the bottom
+decorations is smaller than the room `pageBottom − bs − content_box_y`, the content box is stretched to
+`pageBottom − bs` exactly (so the margin box ends at the caller's `pageBottom − bottomSpace`); otherwise
+the own height is kept — in particular a box whose content ends within the last `pb + bb + mb` of the room
+is *not* stretched. -/
+theorem fragment_height_clone (c : Ctx) (st : PStyle) (b : BoxSt) (bs : Rat)
+    (cwc : Bool) (r : Resume) (posY : Rat) (adjL cur : List Rat) (curIsL hasKids : Bool)
+    (hc : st.clone = true) :
+    let g := (finishTail c st b bs cwc true (some r) posY adjL cur curIsL hasKids).geo
+    let h0 := tailH0 st b cwc posY adjL cur hasKids
+    g.mb = b.mb ∧ g.pb = b.pb ∧ g.bb = b.bb ∧
+    (h0 + (b.pb + b.bb + b.mb) < c.pageBottom - bs - g.contentBoxY → g.contentBoxY + g.h = c.pageBottom - bs) ∧
+    (¬ h0 + (b.pb + b.bb + b.mb) < c.pageBottom - bs - g.contentBoxY → g.h = h0) := by
+  have h1 := finishTail_fragmented_clone c st b bs cwc r posY adjL cur curIsL hasKids hc
+  have h2 := finishTail_geo_frame c st b bs cwc true (some r) posY adjL cur curIsL hasKids
+  dsimp only at h1 h2 ⊢
+  obtain ⟨ha, hb, hcc, hd⟩ := h1
+  obtain ⟨hy, hmt, hbt, hpt⟩ := h2
+  refine ⟨ha, hb, hcc, ?_, ?_⟩
+  · intro hlt
+    simp only [Geo.contentBoxY, hy, hmt, hbt, hpt] at hlt ⊢
+    rw [hd, if_pos hlt]; grind
+  · intro hlt
+    simp only [Geo.contentBoxY, hy, hmt, hbt, hpt] at hlt
+    rw [hd, if_neg hlt]
+
+/-- **A fragmented box reaches the bottom of its page area** (whole layouts): every fragment returned by
+`block_level_layout` together with a resume position, decorations not cloned, has no bottom margin / padding /
+border and its content box ends at or below `pageBottom − bottomSpace`. -/
+theorem fragment_reaches_bottom (c : Ctx) (box : PBox) (idx : Nat) (y bs : Rat) (skip : Option Resume)
+    (cb pie : Bool) (adjL : List Rat) (f : Frag) (r : Resume)
+    (hf : (layoutBox c box idx y bs skip cb pie adjL).frag = some f)
+    (hr : (layoutBox c box idx y bs skip cb pie adjL).resume = some r)
+    (hc : box.st.clone = false) :
+    f.geo.mb = 0 ∧ f.geo.pb = 0 ∧ f.geo.bb = 0 ∧ c.pageBottom - bs ≤ f.geo.contentBoxY + f.geo.h := by
+  obtain ⟨b, dbd, posY, adjL', cur, curIsL, hasKids, hg, hdbd, _⟩ := layoutBox_geo_tail c box idx y bs skip cb pie adjL f hf
+  rw [hr] at hg hdbd
+  have hd : dbd = false := by rw [hdbd rfl, hc]
+  subst hd
+  have hbs : (prepare c box.st y bs skip cb pie adjL).bs = bs := by rw [prepare_bs, hc]; simp
+  rw [hbs] at hg
+  obtain ⟨h1, h2, h3, _, h5⟩ := fragment_height c box.st b bs _ r posY adjL' cur curIsL hasKids hc
+  rw [hg]
+  refine ⟨h1, h2, h3, ?_⟩
+  rw [h5]
+  grind
+
+/-! Non-vacuity: a paragraph with a top margin followed by a block with cloned bottom padding and border
+holding a second paragraph, on 55px pages: 4 pages; page 2 shows lines 5–6 of the first paragraph and lines
+0–1 of the second, ending at 10, 20, 30, 40 (6px stay reserved for the cloned decorations). -/
+def exDoc : Doc :=
+  { pageH := 55, rootLtr := true,
+    root := .block 0 { plainSt with isRoot := true }
+      [.para 1 7 10 { plainSt with mt := 4 },
+       .block 3 { plainSt with clone := true, pb := 5, bb := 1 } [.para 2 8 10 plainSt]] }
+
+example : DecoOk exDoc.root := by
+  simp only [exDoc, DecoOk, DecoOkList, PStyle.DecoOk, plainSt]
+  decide +kernel
+
+example : (paginate exDoc 10).map (fun ps => ps.map (fun p =>
+      (placedLines p.root true (pageSource exDoc p)).map (fun l => (l.exempt, l.para, l.line, l.y + l.lineH)))) =
+    some [[(true, 1, 0, 14), (false, 1, 1, 24), (false, 1, 2, 34), (false, 1, 3, 44), (false, 1, 4, 54)],
+      [(true, 1, 5, 10), (false, 1, 6, 20), (false, 2, 0, 30), (false, 2, 1, 40)],
+      [(true, 2, 2, 10), (false, 2, 3, 20), (false, 2, 4, 30), (false, 2, 5, 40)],
+      [(true, 2, 6, 10), (false, 2, 7, 20)]] := by decide +kernel
+
+
+/-- Fragment heights on the same document: per page (fragmented?, content bottom of the root), and for each
+child (cloned?, content bottom, bottom padding + border + margin). The fragmented root and the fragmented first
+paragraph are stretched to 55; the fragmented cloned block ends its content at 49 = 55 − (5 + 1) and keeps its
+decorations; on the last page nothing is stretched. -/
+example : (paginate exDoc 10).map (fun ps => ps.map (fun p =>
+      (p.resume.isSome, p.root.geo.contentBoxY + p.root.geo.h))) =
+    some [(true, 55), (true, 55), (true, 55), (false, 26)] := by decide +kernel
+
+example : (paginate exDoc 10).map (fun ps => ps.map (fun p =>
+      p.root.kids.map (fun k => (k.st.clone, k.geo.contentBoxY + k.geo.h, k.geo.pb + k.geo.bb + k.geo.mb)))) =
+    some [[(false, 55, 0)], [(false, 20, 0), (true, 49, 6)], [(true, 49, 6)], [(true, 20, 6)]] := by
+  decide +kernel
 
 end Wp.C03Geo
